@@ -57,9 +57,9 @@ type Scenario struct {
 	FinaliseA bool
 	// FullBaseDump: the first checkpoint compares the model with the WHOLE database (ties the closed-form base)
 	FullBaseDump bool
-	Seed      uint64
-	Case      int
-	Name      string
+	Seed         uint64
+	Case         int
+	Name         string
 }
 
 var versions = []string{"0.13.2", "0.13.4", "0.14.0", "0.14.1"}
